@@ -9,7 +9,7 @@
 import LexprModel.Print
 import LexprModel.Lex
 namespace Lexpr
-namespace Utf8
+namespace Utf8.U8
 
 /-! ### Part 1: the automaton -/
 
@@ -39,7 +39,7 @@ theorem valid_append_iff_of_valid_left {a : List UInt8} (b : List UInt8) (ha : v
 
 /-- States the automaton can actually be in: inside a sequence the next byte is a continuation
     byte, never ASCII. -/
-def St.WF : St → Prop
+def _root_.Lexpr.Utf8.St.WF : St → Prop
   | .idle => True
   | .mid _ lo _ => 0x80 ≤ lo
 
@@ -182,8 +182,8 @@ theorem valid_split_ascii_text {a t c : List UInt8} (h : valid (a ++ t ++ c)) (h
     rw [← List.cons_append, valid_ascii_append c ht] at h2
     exact h2
 
-end Utf8
-namespace Utf8
+end Utf8.U8
+namespace Utf8.U8
 
 /-! ### Part 2: `encode` -/
 
@@ -408,8 +408,9 @@ theorem decodeFirst_encode {c : Nat} (h : isScalar c = true) (rest : List UInt8)
       · exact decodeFirst_encode3 h2 h3 h.2 rest
       · exact decodeFirst_encode4 h3 h.1 rest
 
-end Utf8
-open Utf8
+end Utf8.U8
+open Utf8 Utf8.U8
+namespace Print.U8
 
 /-! ### Part 3: the printer -/
 
@@ -455,7 +456,6 @@ theorem intDigits_ascii (i : Int) : Ascii (intDigits i) := by
   · exact Ascii.cons (by decide) (natDigits_ascii _)
   · exact natDigits_ascii _
 
-namespace Print
 
 theorem escapeText_ascii_all : ∀ n < 128,
     ((escapeText .r6rs (UInt8.ofNat n) (escClass (UInt8.ofNat n))).all (· < 0x80) &&
@@ -610,6 +610,50 @@ def PayloadsValidList : List Value → Prop
   | x :: xs => PayloadsValid x ∧ PayloadsValidList xs
 end
 
+mutual
+/-- The part of `PayloadsValid` that concerns text: every string, symbol and keyword payload is
+    well-formed UTF-8 (nothing is required of characters). -/
+def TextValid : Value → Prop
+  | .string s => valid s = true
+  | .symbol s => valid s = true
+  | .keyword s => valid s = true
+  | .cons a d => TextValid a ∧ TextValid d
+  | .vector xs => TextValidList xs
+  | .char _ => True
+  | .nil => True
+  | .null => True
+  | .bool _ => True
+  | .number _ => True
+  | .bytes _ => True
+def TextValidList : List Value → Prop
+  | [] => True
+  | x :: xs => TextValid x ∧ TextValidList xs
+end
+
+mutual
+theorem PayloadsValid.text : ∀ v : Value, PayloadsValid v → TextValid v
+  | .string _, h => by simp only [PayloadsValid] at h; simp only [TextValid]; exact h
+  | .symbol _, h => by simp only [PayloadsValid] at h; simp only [TextValid]; exact h
+  | .keyword _, h => by simp only [PayloadsValid] at h; simp only [TextValid]; exact h
+  | .cons a d, h => by
+    simp only [PayloadsValid] at h; simp only [TextValid]
+    exact ⟨PayloadsValid.text a h.1, PayloadsValid.text d h.2⟩
+  | .vector xs, h => by
+    simp only [PayloadsValid] at h; simp only [TextValid]
+    exact PayloadsValidList.text xs h
+  | .char _, _ => by simp only [TextValid]
+  | .nil, _ => by simp only [TextValid]
+  | .null, _ => by simp only [TextValid]
+  | .bool _, _ => by simp only [TextValid]
+  | .number _, _ => by simp only [TextValid]
+  | .bytes _, _ => by simp only [TextValid]
+theorem PayloadsValidList.text : ∀ xs : List Value, PayloadsValidList xs → TextValidList xs
+  | [], _ => by simp only [TextValidList]
+  | x :: xs, h => by
+    simp only [PayloadsValidList] at h; simp only [TextValidList]
+    exact ⟨PayloadsValid.text x h.1, PayloadsValidList.text xs h.2⟩
+end
+
 /-- every emission is well-formed UTF-8 on its own -/
 def AllValid (es : List Emit) : Prop := ∀ e ∈ es, valid e.bytes = true
 
@@ -654,20 +698,20 @@ theorem bytesEmits_valid (o : Options) (bs : List UInt8) : AllValid (bytesEmits 
       (AllValid.ascii (by decide) AllValid.nil))
 
 theorem atomEmits_valid (o : Options) {ryu : Nat → List UInt8} (hryu : ∀ b, ∀ x ∈ ryu b, x < 0x80) :
-    ∀ v : Value, PayloadsValid v → AllValid (atomEmits o ryu v)
+    ∀ v : Value, TextValid v → AllValid (atomEmits o ryu v)
   | .nil, _ => AllValid.ascii (nilText_ascii o) AllValid.nil
   | .null, _ => AllValid.ascii (by decide) AllValid.nil
   | .bool b, _ => AllValid.ascii (boolText_ascii o b) AllValid.nil
   | .number n, _ => AllValid.ascii (numberText_ascii hryu n) AllValid.nil
   | .char c, _ => AllValid.ascii (charText_ascii o c) AllValid.nil
   | .symbol s, h => by
-    simp only [PayloadsValid] at h
+    simp only [TextValid] at h
     exact AllValid.cons h AllValid.nil
   | .keyword s, h => by
-    simp only [PayloadsValid] at h
+    simp only [TextValid] at h
     exact keywordEmits_valid o h
   | .string s, h => by
-    simp only [PayloadsValid] at h
+    simp only [TextValid] at h
     exact AllValid.ascii (by decide) (AllValid.cons (by simpa [Emit.bytes, valid_escapeStr] using h)
       (AllValid.ascii (by decide) AllValid.nil))
   | .bytes b, _ => bytesEmits_valid o b
@@ -679,14 +723,14 @@ theorem dot_valid : AllValid [Emit.all (asc " "), Emit.all (asc "."), Emit.all (
 
 mutual
 theorem emits_valid (o : Options) {ryu : Nat → List UInt8} (hryu : ∀ b, ∀ x ∈ ryu b, x < 0x80) :
-    ∀ v : Value, PayloadsValid v → AllValid (emits o ryu v)
+    ∀ v : Value, TextValid v → AllValid (emits o ryu v)
   | .cons a d, h => by
-    simp only [PayloadsValid] at h
+    simp only [TextValid] at h
     simp only [emits]
     exact AllValid.ascii (by decide) (AllValid.append (AllValid.append (emits_valid o hryu a h.1)
       (emitsTail_valid o hryu d h.2)) (AllValid.ascii (by decide) AllValid.nil))
   | .vector xs, h => by
-    simp only [PayloadsValid] at h
+    simp only [TextValid] at h
     simp only [emits]
     exact AllValid.ascii (vecOpen_ascii o) (AllValid.append (emitsSeq_valid o hryu true xs h)
       (AllValid.ascii (vecClose_ascii o) AllValid.nil))
@@ -718,15 +762,15 @@ theorem emits_valid (o : Options) {ryu : Nat → List UInt8} (hryu : ∀ b, ∀ 
     simp only [emits]
     exact (atomEmits_valid o hryu _ h)
 theorem emitsTail_valid (o : Options) {ryu : Nat → List UInt8} (hryu : ∀ b, ∀ x ∈ ryu b, x < 0x80) :
-    ∀ v : Value, PayloadsValid v → AllValid (emitsTail o ryu v)
+    ∀ v : Value, TextValid v → AllValid (emitsTail o ryu v)
   | .null, _ => by simp only [emitsTail]; exact AllValid.nil
   | .cons a d, h => by
-    simp only [PayloadsValid] at h
+    simp only [TextValid] at h
     simp only [emitsTail]
     exact AllValid.ascii (by decide) (AllValid.append (emits_valid o hryu a h.1)
       (emitsTail_valid o hryu d h.2))
   | .vector xs, h => by
-    simp only [PayloadsValid] at h
+    simp only [TextValid] at h
     simp only [emitsTail]
     exact AllValid.append dot_valid (AllValid.ascii (vecOpen_ascii o)
       (AllValid.append (emitsSeq_valid o hryu true xs h) (AllValid.ascii (vecClose_ascii o) AllValid.nil)))
@@ -755,22 +799,22 @@ theorem emitsTail_valid (o : Options) {ryu : Nat → List UInt8} (hryu : ∀ b, 
     simp only [emitsTail]
     exact AllValid.append dot_valid (atomEmits_valid o hryu _ h)
 theorem emitsSeq_valid (o : Options) {ryu : Nat → List UInt8} (hryu : ∀ b, ∀ x ∈ ryu b, x < 0x80) :
-    ∀ (first : Bool) (xs : List Value), PayloadsValidList xs → AllValid (emitsSeq o ryu first xs)
+    ∀ (first : Bool) (xs : List Value), TextValidList xs → AllValid (emitsSeq o ryu first xs)
   | _, [], _ => by simp only [emitsSeq]; exact AllValid.nil
   | true, x :: xs, h => by
-    simp only [PayloadsValidList] at h
+    simp only [TextValidList] at h
     simp only [emitsSeq]
     exact AllValid.append (emits_valid o hryu x h.1) (emitsSeq_valid o hryu false xs h.2)
   | false, x :: xs, h => by
-    simp only [PayloadsValidList] at h
+    simp only [TextValidList] at h
     simp only [emitsSeq]
     exact AllValid.ascii (by decide) (AllValid.append (emits_valid o hryu x h.1)
       (emitsSeq_valid o hryu false xs h.2))
 end
 
-end Print
-open Utf8
-namespace Parse
+end Print.U8
+open Utf8 Utf8.U8
+namespace Parse.U8
 
 /-! ### Part 4: the `&str` source -/
 
@@ -1066,9 +1110,9 @@ theorem parseR6rsStr_ok (f : Nat) : ∀ {acc : List UInt8} {s s' : St} {out : Li
         exact ⟨fun hne => ih1 (by rw [hm]; exact hne),
           fun hs hinv => ih2 (by rw [hm]; exact hs) (hinv.copy hr)⟩
 
-end Parse
-open Utf8
-namespace Parse
+end Parse.U8
+open Utf8 Utf8.U8
+namespace Parse.U8
 
 /-! #### bonus: UTF-8 sequences read by `decode_utf8_sequence`, Emacs strings -/
 
@@ -1153,17 +1197,343 @@ theorem parseElispStr_multibyte_valid (f : Nat) : ∀ {acc : List UInt8} {ub mb 
         cases k <;> exact ih h
       · exact ih h
 
-end Parse
+end Parse.U8
+
+open Utf8 Utf8.U8
+namespace Parse.U8
+
+/-! ### Part 5: tokens -/
+
+theorem ite_ok {α : Type} {c : Prop} [Decidable c] {f g : P α} {s s' : St} {a : α}
+    (h : (if c then f else g) s = .ok a s') : (c ∧ f s = .ok a s') ∨ (¬ c ∧ g s = .ok a s') := by
+  by_cases hc : c
+  · rw [if_pos hc] at h; exact Or.inl ⟨hc, h⟩
+  · rw [if_neg hc] at h; exact Or.inr ⟨hc, h⟩
+
+theorem pure_ok {α : Type} {a b : α} {s s' : St} (h : (pure a : P α) s = .ok b s') : a = b ∧ s = s' := by
+  simpa [pure_apply] using h
+
+theorem discard_ok {s s' : St} {u : Unit} (h : discard s = .ok u s') :
+    s'.rd.mode = s.rd.mode ∧ ∃ b, s.rd.rest = b :: s'.rd.rest := by
+  unfold discard at h
+  split at h
+  · rename_i b bs hr
+    simp only [Res.ok.injEq] at h
+    obtain ⟨_, rfl⟩ := h
+    obtain ⟨h1, h2⟩ := consume_one_cons hr
+    exact ⟨h2, b, by rw [hr, h1]⟩
+  · cases h
+
+theorem peek_ok {s s' : St} {a : Option UInt8} (h : peek s = .ok a s') :
+    s'.rd.mode = s.rd.mode ∧ s'.rd.rest = s.rd.rest ∧ a = s.rd.rest.head? := by
+  unfold peek at h
+  split at h
+  · rename_i b bs hr
+    simp only [Res.ok.injEq] at h
+    obtain ⟨rfl, rfl⟩ := h
+    exact ⟨rfl, rfl, by rw [hr]; rfl⟩
+  · rename_i hr
+    split at h
+    · cases h
+    · simp only [Res.ok.injEq] at h
+      obtain ⟨rfl, rfl⟩ := h
+      exact ⟨rfl, rfl, by rw [hr]; rfl⟩
+
+theorem peekOrNull_ok {s s' : St} {b : UInt8} (h : peekOrNull s = .ok b s') :
+    s'.rd.mode = s.rd.mode ∧ s'.rd.rest = s.rd.rest ∧ b = s.rd.rest.head?.getD 0 := by
+  unfold peekOrNull at h
+  obtain ⟨a, s1, hp, h⟩ := bind_ok h
+  obtain ⟨h1, h2, h3⟩ := peek_ok hp
+  obtain ⟨rfl, rfl⟩ := pure_ok h
+  exact ⟨h1, h2, by rw [h3]⟩
+
+/-- In `&str` mode the unread input is well-formed. -/
+def SV (s : St) : Prop := s.rd.mode = .str → valid s.rd.rest = true
+
+theorem SV.same {s s1 : St} (h : SV s) (hm : s1.rd.mode = s.rd.mode) (hr : s1.rd.rest = s.rd.rest) :
+    SV s1 := by
+  intro h1; rw [hr]; exact h (hm ▸ h1)
+
+theorem SV.tail {s s1 : St} {b : UInt8} (h : SV s) (hm : s1.rd.mode = s.rd.mode)
+    (hr : s.rd.rest = b :: s1.rd.rest) (hb : b < 0x80) : SV s1 := by
+  intro h1
+  have := h (hm ▸ h1)
+  rw [hr, valid_cons_ascii _ hb] at this
+  exact this
+
+/-- The text payload of a token is well-formed. -/
+def TokValid : Token → Prop
+  | .symbol s => valid s = true
+  | .keyword s => valid s = true
+  | .string s => valid s = true
+  | _ => True
+
+theorem symCall_valid {scratch : List UInt8} {s s' : St} {name : List UInt8}
+    (h : parseSymbolBytes scratch s = .ok name s') (hs : valid scratch = true) (hr : SV s) :
+    valid name = true := by
+  obtain ⟨hn, hc⟩ := parseSymbolBytes_ok h
+  by_cases hm : s.rd.mode = .str
+  · rw [hn]; exact valid_append hs (valid_take_symLen _ (hr hm))
+  · exact hc hm
+
+theorem valid_dropLast_colon {name : List UInt8} (hv : valid name = true)
+    (hl : name.getLast? = some 58) : valid name.dropLast = true := by
+  obtain ⟨ys, rfl⟩ := List.getLast?_eq_some_iff.mp hl
+  rw [List.dropLast_concat]
+  exact valid_split_ascii_end hv (by decide)
+
+theorem symbolToken_valid (o : Options) {name : List UInt8} (hv : valid name = true) :
+    TokValid (symbolToken o name) := by
+  unfold symbolToken
+  split
+  · rename_i hc
+    simp only [Bool.and_eq_true, beq_iff_eq] at hc
+    exact valid_dropLast_colon hv hc.2
+  · exact hv
+
+theorem parseSignDotSymbol_valid {cfg : Cfg} {pfx : List UInt8} {s s' : St} {tok : Token}
+    (h : parseSignDotSymbol cfg pfx s = .ok tok s') (hp : valid pfx = true) (hs : SV s)
+    (hhead : ∀ b tl, s.rd.rest = b :: tl → b < 0x80) : TokValid tok := by
+  unfold parseSignDotSymbol at h
+  obtain ⟨_, s1, hd, h⟩ := bind_ok h
+  obtain ⟨hm1, b, hr1⟩ := discard_ok hd
+  have hs1 : SV s1 := hs.tail hm1 hr1 (hhead _ _ hr1)
+  obtain ⟨c, s2, hpk, h⟩ := bind_ok h
+  obtain ⟨hm2, hr2, _⟩ := peekOrNull_ok hpk
+  have hs2 : SV s2 := hs1.same hm2 hr2
+  rcases ite_ok h with ⟨_, h⟩ | ⟨_, h⟩
+  · simp [peekErr] at h
+  · obtain ⟨name, s3, hsym, h⟩ := bind_ok h
+    obtain ⟨rfl, _⟩ := pure_ok h
+    exact symbolToken_valid _ (symCall_valid hsym hp hs2)
+
+theorem parseSignToken_valid {cfg : Cfg} {fuel : Nat} {sign : UInt8} {pos : Bool} {s s' : St}
+    {tok : Token} (h : parseSignToken cfg fuel sign pos s = .ok tok s') (hsign : sign < 0x80)
+    (hs : SV s) (hhead : ∀ b tl, s.rd.rest = b :: tl → b < 0x80) : TokValid tok := by
+  unfold parseSignToken at h
+  obtain ⟨_, s1, hd, h⟩ := bind_ok h
+  obtain ⟨hm1, b, hr1⟩ := discard_ok hd
+  have hs1 : SV s1 := hs.tail hm1 hr1 (hhead _ _ hr1)
+  obtain ⟨nxt, s2, hpk, h⟩ := bind_ok h
+  obtain ⟨hm2, hr2, hnxt⟩ := peekOrNull_ok hpk
+  have hs2 : SV s2 := hs1.same hm2 hr2
+  rcases ite_ok h with ⟨_, h⟩ | ⟨_, h⟩
+  · obtain ⟨name, s3, hsym, h⟩ := bind_ok h
+    obtain ⟨rfl, _⟩ := pure_ok h
+    exact symbolToken_valid _ (symCall_valid hsym (valid_ascii (Ascii.cons hsign Ascii.nil)) hs2)
+  · rcases ite_ok h with ⟨h46, h⟩ | ⟨_, h⟩
+    · refine parseSignDotSymbol_valid h
+        (valid_ascii (Ascii.cons hsign (Ascii.cons (by decide) Ascii.nil))) hs2 ?_
+      intro b' tl hr
+      rw [hr2] at hr
+      rw [hr] at hnxt
+      simp only [List.head?_cons, Option.getD_some] at hnxt
+      rw [← hnxt, eq_of_beq h46]; decide
+    · obtain ⟨n, s3, _, h⟩ := bind_ok h
+      obtain ⟨rfl, _⟩ := pure_ok h
+      exact True.intro
+
+local macro "tok_triv" h:ident : tactic => `(tactic| first
+  | (obtain ⟨h1, _⟩ := pure_ok $h; subst h1; exact True.intro)
+  | (obtain ⟨_, _, _, h2⟩ := bind_ok $h; obtain ⟨h1, _⟩ := pure_ok h2; subst h1; exact True.intro)
+  | (obtain ⟨_, _, _, h2⟩ := bind_ok $h; obtain ⟨_, _, _, h3⟩ := bind_ok h2
+     obtain ⟨h1, _⟩ := pure_ok h3; subst h1; exact True.intro))
+
+theorem r6rsStr_call_valid {f : Nat} {acc : List UInt8} {s s' : St} {out : List UInt8}
+    (h : parseR6rsStr f acc s = .ok out s') (ha : valid acc = true) (hs : SV s) : valid out = true := by
+  obtain ⟨h1, h2⟩ := parseR6rsStr_ok f h
+  by_cases hm : s.rd.mode = .str
+  · exact h2 hm (StrInv.of_valid ha (hs hm))
+  · exact h1 hm
+
+/-- **Tokens.**  `pk` is the byte the caller has peeked.  If (for the `&str` source) the unread
+    input is well-formed, the text payload of the token is well-formed. -/
+theorem parseToken_valid {cfg : Cfg} {fuel : Nat} {pk : UInt8} {s s' : St} {tok : Token}
+    (h : parseToken cfg fuel pk s = .ok tok s') (hpk : ∃ tl, s.rd.rest = pk :: tl) (hs : SV s) :
+    TokValid tok := by
+  obtain ⟨tl, hpk⟩ := hpk
+  have hhead : ∀ b tl', s.rd.rest = b :: tl' → b = pk := by
+    intro b tl' hr; rw [hpk] at hr; cases hr; rfl
+  unfold parseToken at h
+  simp only [] at h
+  -- '#'
+  rcases ite_ok h with ⟨hc, h⟩ | ⟨_, h⟩
+  · have hpka : pk < 0x80 := by rw [eq_of_beq hc]; decide
+    obtain ⟨_, s1, hd, h⟩ := bind_ok h
+    obtain ⟨hm1, b, hr1⟩ := discard_ok hd
+    have hs1 : SV s1 := hs.tail hm1 hr1 (by rw [hhead _ _ hr1]; exact hpka)
+    obtain ⟨a, s2, hn, h⟩ := bind_ok h
+    obtain ⟨hm2, hr2⟩ := next_ok hn
+    cases a with
+    | none => simp [peekErr] at h
+    | some c =>
+      rcases hr2 with ⟨h0, _⟩ | ⟨c', hc', hr2⟩
+      · cases h0
+      cases hc'
+      rcases ite_ok h with ⟨_, h⟩ | ⟨_, h⟩
+      · tok_triv h
+      rcases ite_ok h with ⟨_, h⟩ | ⟨_, h⟩
+      · tok_triv h
+      rcases ite_ok h with ⟨_, h⟩ | ⟨_, h⟩
+      · tok_triv h
+      rcases ite_ok h with ⟨_, h⟩ | ⟨_, h⟩
+      · tok_triv h
+      rcases ite_ok h with ⟨hc, h⟩ | ⟨_, h⟩
+      · simp only [Bool.and_eq_true, beq_iff_eq] at hc
+        have hs2 : SV s2 := hs1.tail hm2 hr2 (by rw [hc.1]; decide)
+        obtain ⟨name, s3, hsym, h⟩ := bind_ok h
+        obtain ⟨rfl, _⟩ := pure_ok h
+        exact symCall_valid hsym valid_nil hs2
+      rcases ite_ok h with ⟨_, h⟩ | ⟨_, h⟩
+      · tok_triv h
+      rcases ite_ok h with ⟨_, h⟩ | ⟨_, h⟩
+      · tok_triv h
+      rcases ite_ok h with ⟨_, h⟩ | ⟨_, h⟩
+      · tok_triv h
+      rcases ite_ok h with ⟨_, h⟩ | ⟨_, h⟩
+      · tok_triv h
+      rcases ite_ok h with ⟨_, h⟩ | ⟨_, h⟩
+      · tok_triv h
+      rcases ite_ok h with ⟨_, h⟩ | ⟨_, h⟩
+      · tok_triv h
+      rcases ite_ok h with ⟨_, h⟩ | ⟨_, h⟩
+      · tok_triv h
+      rcases ite_ok h with ⟨hc, h⟩ | ⟨_, h⟩
+      · simp only [Bool.and_eq_true, beq_iff_eq] at hc
+        have hs2 : SV s2 := hs1.tail hm2 hr2 (by rw [hc.1]; decide)
+        obtain ⟨name, s3, hsym, h⟩ := bind_ok h
+        obtain ⟨rfl, _⟩ := pure_ok h
+        exact symCall_valid hsym (by decide) hs2
+      · simp [peekErr] at h
+  -- '-'
+  rcases ite_ok h with ⟨hc, h⟩ | ⟨_, h⟩
+  · have hpka : pk < 0x80 := by rw [eq_of_beq hc]; decide
+    exact parseSignToken_valid h (by decide) hs (fun b tl' hr => by rw [hhead _ _ hr]; exact hpka)
+  -- '+'
+  rcases ite_ok h with ⟨hc, h⟩ | ⟨_, h⟩
+  · have hpka : pk < 0x80 := by rw [eq_of_beq hc]; decide
+    exact parseSignToken_valid h (by decide) hs (fun b tl' hr => by rw [hhead _ _ hr]; exact hpka)
+  -- digits
+  rcases ite_ok h with ⟨_, h⟩ | ⟨_, h⟩
+  · rcases ite_ok h with ⟨_, h⟩ | ⟨_, h⟩
+    · obtain ⟨sym, s1, hsym, h⟩ := bind_ok h
+      have hv := symCall_valid hsym valid_nil hs
+      cases hw : wholeNumber cfg sym with
+      | some n => rw [hw] at h; tok_triv h
+      | none =>
+        rw [hw] at h
+        obtain ⟨rfl, _⟩ := pure_ok h
+        exact symbolToken_valid _ hv
+    · tok_triv h
+  -- '"'
+  rcases ite_ok h with ⟨hc, h⟩ | ⟨_, h⟩
+  · have hpka : pk < 0x80 := by rw [eq_of_beq hc]; decide
+    obtain ⟨_, s1, hd, h⟩ := bind_ok h
+    obtain ⟨hm1, b, hr1⟩ := discard_ok hd
+    have hs1 : SV s1 := hs.tail hm1 hr1 (by rw [hhead _ _ hr1]; exact hpka)
+    cases hstr : cfg.opts.string with
+    | r6rs =>
+      rw [hstr] at h
+      obtain ⟨out, s2, hp, h⟩ := bind_ok h
+      obtain ⟨rfl, _⟩ := pure_ok h
+      exact r6rsStr_call_valid hp valid_nil hs1
+    | elisp =>
+      rw [hstr] at h
+      obtain ⟨r, s2, hp, h⟩ := bind_ok h
+      cases r with
+      | unibyte b => tok_triv h
+      | multibyte out =>
+        obtain ⟨rfl, _⟩ := pure_ok h
+        exact parseElispStr_multibyte_valid _ hp
+  -- '('
+  rcases ite_ok h with ⟨_, h⟩ | ⟨_, h⟩
+  · tok_triv h
+  -- '['
+  rcases ite_ok h with ⟨_, h⟩ | ⟨_, h⟩
+  · obtain ⟨_, s1, _, h⟩ := bind_ok h
+    cases hb : cfg.opts.brackets <;> rw [hb] at h <;> tok_triv h
+  -- ':'
+  rcases ite_ok h with ⟨hc, h⟩ | ⟨_, h⟩
+  · have hpka : pk < 0x80 := by rw [eq_of_beq hc]; decide
+    rcases ite_ok h with ⟨_, h⟩ | ⟨_, h⟩
+    · obtain ⟨_, s1, hd, h⟩ := bind_ok h
+      obtain ⟨hm1, b, hr1⟩ := discard_ok hd
+      have hs1 : SV s1 := hs.tail hm1 hr1 (by rw [hhead _ _ hr1]; exact hpka)
+      obtain ⟨name, s2, hsym, h⟩ := bind_ok h
+      obtain ⟨rfl, _⟩ := pure_ok h
+      exact symCall_valid hsym valid_nil hs1
+    · obtain ⟨name, s2, hsym, h⟩ := bind_ok h
+      obtain ⟨rfl, _⟩ := pure_ok h
+      exact symbolToken_valid _ (symCall_valid hsym valid_nil hs)
+  -- letters
+  rcases ite_ok h with ⟨_, h⟩ | ⟨_, h⟩
+  · obtain ⟨name, s1, hsym, h⟩ := bind_ok h
+    have hv := symCall_valid hsym valid_nil hs
+    rcases ite_ok h with ⟨hc, h⟩ | ⟨_, h⟩
+    · simp only [Bool.and_eq_true, beq_iff_eq] at hc
+      obtain ⟨rfl, _⟩ := pure_ok h
+      exact valid_dropLast_colon hv hc.2
+    rcases ite_ok h with ⟨_, h⟩ | ⟨_, h⟩
+    · cases hn : cfg.opts.nil <;> rw [hn] at h
+      · tok_triv h
+      · simp [panicAt] at h
+      · tok_triv h
+    rcases ite_ok h with ⟨_, h⟩ | ⟨_, h⟩
+    · cases ht : cfg.opts.t <;> rw [ht] at h
+      · tok_triv h
+      · simp [panicAt] at h
+    · obtain ⟨rfl, _⟩ := pure_ok h
+      exact hv
+  -- '?'
+  rcases ite_ok h with ⟨_, h⟩ | ⟨_, h⟩
+  · tok_triv h
+  -- quote
+  rcases ite_ok h with ⟨_, h⟩ | ⟨_, h⟩
+  · tok_triv h
+  rcases ite_ok h with ⟨_, h⟩ | ⟨_, h⟩
+  · tok_triv h
+  -- ','
+  rcases ite_ok h with ⟨_, h⟩ | ⟨_, h⟩
+  · obtain ⟨_, s1, _, h⟩ := bind_ok h
+    obtain ⟨c, s2, _, h⟩ := bind_ok h
+    rcases ite_ok h with ⟨_, h⟩ | ⟨_, h⟩ <;> tok_triv h
+  -- a non-ASCII symbol initial
+  rcases ite_ok h with ⟨_, h⟩ | ⟨_, h⟩
+  · obtain ⟨_, s1, hd, h⟩ := bind_ok h
+    obtain ⟨hm1, b, hr1⟩ := discard_ok hd
+    obtain ⟨⟨c, bytes⟩, s2, hseq, h⟩ := bind_ok h
+    obtain ⟨hb, hm2, hr2⟩ := decodeUtf8Sequence_ok hseq
+    have hs2 : SV s2 := by
+      intro hm
+      have hv := hs (by rw [← hm1, ← hm2]; exact hm)
+      rw [hr1, hhead _ _ hr1] at hv
+      exact decodeUtf8Sequence_rest_valid hseq hv
+    rcases ite_ok h with ⟨_, h⟩ | ⟨_, h⟩
+    · simp [peekErr] at h
+    · obtain ⟨name, s3, hsym, h⟩ := bind_ok h
+      obtain ⟨rfl, _⟩ := pure_ok h
+      exact symbolToken_valid _ (symCall_valid hsym hb hs2)
+  -- extended symbol characters
+  rcases ite_ok h with ⟨_, h⟩ | ⟨_, h⟩
+  · obtain ⟨name, s2, hsym, h⟩ := bind_ok h
+    obtain ⟨rfl, _⟩ := pure_ok h
+    exact symbolToken_valid _ (symCall_valid hsym valid_nil hs)
+  -- anything else is an error
+  · obtain ⟨_, s1, _, h⟩ := bind_ok h
+    obtain ⟨_, s2, _, h⟩ := bind_ok h
+    cases h
+
+end Parse.U8
 
 /-! ## Main theorems -/
 
 namespace C17
-open Utf8 Print Parse
+open Utf8 Print Parse Utf8.U8 Print.U8 Parse.U8
 
 /-- The automaton run over a concatenation is the run over the first part continued over the
     second. -/
 theorem run_append (s : Utf8.St) (a b : List UInt8) :
-    run s (a ++ b) = (run s a).bind (fun s' => run s' b) := Utf8.run_append s a b
+    run s (a ++ b) = (run s a).bind (fun s' => run s' b) := Utf8.U8.run_append s a b
 
 example : run .idle ([0xE2, 0x82] ++ [0xAC, 0x41]) = (run .idle [0xE2, 0x82]).bind (fun s' => run s' [0xAC, 0x41]) :=
   run_append _ _ _
@@ -1171,26 +1541,26 @@ example : run .idle [0xE2, 0x82] = some (.mid 1 0x80 0xBF) := by decide
 
 /-- Concatenating well-formed texts gives a well-formed text. -/
 theorem valid_append {a b : List UInt8} (ha : valid a) (hb : valid b) : valid (a ++ b) :=
-  Utf8.valid_append ha hb
+  Utf8.U8.valid_append ha hb
 
 example : valid ([0xC3, 0xA9] ++ [0xE2, 0x82, 0xAC]) :=
   valid_append (by decide) (by decide)
 
 /-- After a well-formed prefix, validity of the whole is validity of the rest. -/
 theorem valid_append_iff_of_valid_left {a : List UInt8} (b : List UInt8) (ha : valid a) :
-    valid (a ++ b) = valid b := Utf8.valid_append_iff_of_valid_left b ha
+    valid (a ++ b) = valid b := Utf8.U8.valid_append_iff_of_valid_left b ha
 
 example : valid ([0xC3, 0xA9] ++ [0xA9]) = false := by
   rw [valid_append_iff_of_valid_left _ (by decide)]; decide
 
 /-- ASCII text is well-formed. -/
-theorem valid_ascii {bs : List UInt8} (h : ∀ b ∈ bs, b < 0x80) : valid bs := Utf8.valid_ascii h
+theorem valid_ascii {bs : List UInt8} (h : ∀ b ∈ bs, b < 0x80) : valid bs := Utf8.U8.valid_ascii h
 
 example : valid (asc "(a . b)") := valid_ascii (by decide)
 
 /-- A leading ASCII byte does not matter. -/
 theorem valid_cons_ascii {b : UInt8} (bs : List UInt8) (hb : b < 0x80) :
-    valid (b :: bs) = valid bs := Utf8.valid_cons_ascii bs hb
+    valid (b :: bs) = valid bs := Utf8.U8.valid_cons_ascii bs hb
 
 example : valid (0x28 :: [0xC3, 0xA9]) = valid [0xC3, 0xA9] := valid_cons_ascii _ (by decide)
 
@@ -1198,34 +1568,34 @@ example : valid (0x28 :: [0xC3, 0xA9]) = valid [0xC3, 0xA9] := valid_cons_ascii 
     text cut in front of an ASCII byte gives two well-formed texts. -/
 theorem valid_split_ascii {a : List UInt8} {b : UInt8} {c : List UInt8}
     (h : valid (a ++ b :: c)) (hb : b < 0x80) : valid a ∧ valid (b :: c) :=
-  Utf8.valid_split_ascii h hb
+  Utf8.U8.valid_split_ascii h hb
 
 example : valid [0xC3, 0xA9] ∧ valid (0x20 :: [0xE2, 0x82, 0xAC]) :=
   valid_split_ascii (a := [0xC3, 0xA9]) (by decide) (by decide)
 
 /-- The same as an equation (both directions). -/
 theorem valid_append_cons_ascii (a : List UInt8) {b : UInt8} (c : List UInt8) (hb : b < 0x80) :
-    valid (a ++ b :: c) = (valid a && valid c) := Utf8.valid_append_cons_ascii a c hb
+    valid (a ++ b :: c) = (valid a && valid c) := Utf8.U8.valid_append_cons_ascii a c hb
 
 example : valid ([0xC3] ++ 0x20 :: [0xA9]) = false := by
   rw [valid_append_cons_ascii _ _ (by decide)]; decide
 
 /-- Split at the end: a trailing ASCII byte can be dropped (the postfix-keyword colon). -/
 theorem valid_split_ascii_end {a : List UInt8} {b : UInt8}
-    (h : valid (a ++ [b])) (hb : b < 0x80) : valid a := Utf8.valid_split_ascii_end h hb
+    (h : valid (a ++ [b])) (hb : b < 0x80) : valid a := Utf8.U8.valid_split_ascii_end h hb
 
 example : valid [0xCE, 0xBB] := valid_split_ascii_end (b := 58) (by decide) (by decide)
 
 /-- `char::encode_utf8` of a scalar value is well-formed. -/
 theorem encode_valid {c : Nat} (h : isScalar c = true) : valid (encode c) = true :=
-  Utf8.encode_valid h
+  Utf8.U8.encode_valid h
 
 example : valid (encode 0x1F600) = true := encode_valid (by decide)
 example : encode 0x1F600 = [0xF0, 0x9F, 0x98, 0x80] := by decide
 
 /-- Decoding reads back what `encode` wrote and leaves the rest. -/
 theorem decodeFirst_encode {c : Nat} (h : isScalar c = true) (rest : List UInt8) :
-    decodeFirst (encode c ++ rest) = some (c, rest) := Utf8.decodeFirst_encode h rest
+    decodeFirst (encode c ++ rest) = some (c, rest) := Utf8.U8.decodeFirst_encode h rest
 
 example : decodeFirst (encode 0xFFFD ++ [0x41]) = some (0xFFFD, [0x41]) :=
   decodeFirst_encode (by decide) _
@@ -1233,7 +1603,7 @@ example : decodeFirst (encode 0xFFFD ++ [0x41]) = some (0xFFFD, [0x41]) :=
 /-- `format_escaped_str_contents` neither breaks nor repairs text: the escaped text is well-formed
     exactly when the payload is. -/
 theorem valid_escapeStr (syn : StringSyntax) (bs : List UInt8) :
-    valid (escapeStr syn bs) = valid bs := Print.valid_escapeStr syn bs
+    valid (escapeStr syn bs) = valid bs := Print.U8.valid_escapeStr syn bs
 
 example : valid (escapeStr .r6rs [0x22, 0xC3, 0xA9, 0x07, 0x01]) = true := by
   rw [valid_escapeStr]; decide
@@ -1245,7 +1615,17 @@ example : valid (escapeStr .r6rs [0x22, 0xC3, 0xA9, 0x07, 0x01]) = true := by
 theorem C17_print_valid (o : Print.Options) {ryu : Nat → List UInt8} (hryu : ∀ b, ∀ x ∈ ryu b, x < 0x80)
     {v : Value} (hv : PayloadsValid v) :
     valid (Print.text o ryu v) = true ∧ ∀ e ∈ Print.emits o ryu v, valid e.bytes = true :=
+  ⟨valid_flatten (emits_valid o hryu v hv.text), emits_valid o hryu v hv.text⟩
+
+/-- The same from the weaker hypothesis `TextValid` (nothing is assumed about characters: the
+    printer writes a non-scalar "character" as an ASCII hex escape). -/
+theorem C17_print_valid_text (o : Print.Options) {ryu : Nat → List UInt8}
+    (hryu : ∀ b, ∀ x ∈ ryu b, x < 0x80) {v : Value} (hv : TextValid v) :
+    valid (Print.text o ryu v) = true ∧ ∀ e ∈ Print.emits o ryu v, valid e.bytes = true :=
   ⟨valid_flatten (emits_valid o hryu v hv), emits_valid o hryu v hv⟩
+
+example : TextValid (.cons (.string [0xC3, 0xA9]) (.char 0xD800)) := by
+  simp only [TextValid, and_true]; decide
 
 example : PayloadsValid (.cons (.string [0xC3, 0xA9, 0x22]) (.cons (.vector [.symbol [0xCE, 0xBB], .char 0x1F600,
     .number (.flt 0)]) (.keyword [0x6B]))) := by
@@ -1267,7 +1647,7 @@ theorem C17_symbol_bytes_valid {scratch : List UInt8} {s s' : Parse.St} {name : 
   by_cases hm : s.rd.mode = .str
   · refine Or.inr ⟨hm, fun hs hr => ?_⟩
     rw [hn]
-    exact Utf8.valid_append hs (valid_take_symLen _ hr)
+    exact Utf8.U8.valid_append hs (valid_take_symLen _ hr)
   · exact Or.inl ⟨hm, hc hm⟩
 
 example : ∃ s', parseSymbolBytes [0xCE, 0xBB]
@@ -1301,6 +1681,22 @@ example : ∃ s', parseR6rsStr 20 []
 theorem C17_elisp_str_valid {fuel : Nat} {acc : List UInt8} {ub mb na : Bool} {s s' : Parse.St}
     {out : List UInt8} (h : parseElispStr fuel acc ub mb na s = .ok (.multibyte out) s') :
     valid out = true := parseElispStr_multibyte_valid fuel h
+
+/-- **C17 (tokens).**  `pk` is the byte `parse_whitespace` has peeked.  If — for the `&str` source —
+    the unread input is well-formed (`SV s`; nothing is assumed for the checked sources), then
+    the text payload of the symbol / keyword / string token that `parse_token` returns is
+    well-formed.  This discharges the `valid scratch` premise of `C17_symbol_bytes_valid` at every
+    call site (`[]`, the sign, `#%`, or a sequence checked by `decode_utf8_sequence`) and covers
+    the postfix-keyword `dropLast`. -/
+theorem C17_token_valid {cfg : Cfg} {fuel : Nat} {pk : UInt8} {s s' : Parse.St} {tok : Token}
+    (h : parseToken cfg fuel pk s = .ok tok s') (hpk : ∃ tl, s.rd.rest = pk :: tl)
+    (hs : s.rd.mode = .str → valid s.rd.rest = true) : TokValid tok :=
+  parseToken_valid h hpk hs
+
+example : ∃ s', parseToken ⟨{ Parse.Options.default with kwPostfix := true }, true, fun _ => true, fun _ => 0⟩ 20 0xCE
+    { rd := { mode := .str, rest := [0xCE, 0xBB, 0xC3, 0xA9, 58, 0x29] } } =
+      .ok (.keyword [0xCE, 0xBB, 0xC3, 0xA9]) s' :=
+  ⟨_, rfl⟩
 
 end C17
 end Lexpr
